@@ -516,7 +516,11 @@ func (s Schema) NewDest(n int) *Dest {
 		sel[i] = r
 	}
 	p := s.MakeFrame(sel)
-	return &Dest{s: s, parent: p, View: p.Slice(guardRows, guardRows+n), n: n}
+	// The key prefix of a destination is the caller's business (ReadAll, scanners and FrameReader
+	// hand in frames of prefix 1 whatever the stream's key is): what a reader delivers must not
+	// depend on it, so it varies with the size.
+	view := p.Slice(guardRows, guardRows+n).Prefixed(1 + n%len(s.Cols))
+	return &Dest{s: s, parent: p, View: view, n: n}
 }
 
 // CheckGuards reports an error if a row outside the view was modified.
